@@ -215,7 +215,8 @@ def run(ctx):
     # part of another file read before an I/O error ends up, renamed atomically, in the next file)
     from . import c03 as _c03
     from .c09 import _run_as
-    _run_as(_c03, _c03._Only(ctx, "C07-R6", ("read-exact", "contents-unmodified", "contents-passed")), ctx)
+    _run_as(_c03, _c03._Only(ctx, "C07-R6", ("read-exact", "contents-unmodified", "contents-passed", "partial-write", "copy-shape", "scratch-write-census",
+                                             "writes-census", "copy-", "cursor", "tail", "anchor|")), ctx)
     ctx.assume("POSIX rename(2) atomically replaces the destination; fsync makes the scratch contents durable")
     ctx.assume("async-std's File buffers writes until flush (documented), and sync_all issues fsync")
     ctx.assume("a rename across filesystems fails with EXDEV without touching the destination (then C08 applies)")
